@@ -39,8 +39,8 @@ void tr(int t, int ph, int st) { if (g_ntrace < 4096) g_trace[g_ntrace++] = Ev{(
 size_t stmt_line(int test, int ph, int st) { return (size_t)(1000 * (test + 1) + 10 * ph + st); }
 size_t shell_line(int test) { return (size_t)(1000 * (test + 1)); }
 
-struct Spec { int kind[3]; };
-Spec g_spec[40];
+struct Spec { int kind[3]; int later[3]; };      // later[]: the kind from the second execution on (a test that behaves differently when repeated)
+Spec g_spec[40]; int g_exec[40];
 struct ScriptTest : Utest {
     int idx;
     explicit ScriptTest(int i) : idx(i) {}
@@ -62,7 +62,8 @@ template <class Base> struct ScriptShellT : Base {
 typedef ScriptShellT<UtestShell> ScriptShell;
 typedef ScriptShellT<IgnoredUtestShell> IgnoredScriptShell;
 void ScriptTest::phase(int ph) {
-    int o = g_spec[idx].kind[ph]; int t = idx;
+    if (ph == 0) g_exec[idx]++;
+    int o = g_exec[idx] <= 1 ? g_spec[idx].kind[ph] : g_spec[idx].later[ph]; int t = idx;
     UtestShell* cur = UtestShell::getCurrent();
     for (int st = 1; st <= 2; st++) {
         if ((o == CPP_S1 && st == 1) || (o == CPP_S2 && st == 2)) cur->assertTrue(false, "CHECK", "scripted", NULLPTR, "script.cpp", stmt_line(t, ph, st));
@@ -107,7 +108,7 @@ unsigned long time_zero() { return 0; }
 const char* timestr_fixed() { return "1970-01-01T00:00:00"; }
 
 // ------------------------------------------------------------------ program + reference
-struct TestSpec { int kind[3]; bool ignored; bool filtered; };
+struct TestSpec { int kind[3]; bool ignored; bool filtered; bool varies; int later[3]; };
 struct Program {
     std::vector<TestSpec> tests; bool run_ignored = false; bool plugin_error = false;
 };
@@ -116,10 +117,11 @@ struct Ref {
     std::vector<size_t> fail_lines; std::vector<std::string> fail_files;
     bool failure() const { return failures != 0 || run + ignored == 0; }
 };
-Ref reference(const Program& p) {
+Ref reference(const Program& p, int rep = 0) {
     Ref r; r.tests = p.tests.size();
     for (size_t t = 0; t < p.tests.size(); t++) {
-        const TestSpec& s = p.tests[t];
+        TestSpec s = p.tests[t];
+        if (rep > 0 && s.varies) for (int k = 0; k < 3; k++) s.kind[k] = s.later[k];
         if (s.filtered) { r.filtered++; continue; }
         if (s.ignored && !p.run_ignored) { r.ignored++; continue; }
         r.run++;
@@ -143,7 +145,7 @@ Ref reference(const Program& p) {
 }
 std::string render(const Program& p) {
     std::string o;
-    for (auto& t : p.tests) { o += vf::fmt("[%s%s%s,%s,%s] ", t.ignored ? "IGNORED " : "", t.filtered ? "FILTERED " : "", ONAME[t.kind[0]], ONAME[t.kind[1]], ONAME[t.kind[2]]); }
+    for (auto& t : p.tests) { o += vf::fmt("[%s%s%s,%s,%s%s] ", t.ignored ? "IGNORED " : "", t.filtered ? "FILTERED " : "", ONAME[t.kind[0]], ONAME[t.kind[1]], ONAME[t.kind[2]], t.varies ? vf::fmt(" then %s,%s,%s", ONAME[t.later[0]], ONAME[t.later[1]], ONAME[t.later[2]]).c_str() : ""); }
     if (p.run_ignored) o += "run-ignored "; if (p.plugin_error) o += "plugin-reports-error ";
     return o;
 }
@@ -155,7 +157,8 @@ UtestShell* g_shell_ptr[40];
 void build_registry(const Program& p, TestRegistry& reg) {
     // TestRegistry::addTest prepends: add in reverse so that the run order is the program order
     for (int t = (int)p.tests.size() - 1; t >= 0; t--) {
-        for (int k = 0; k < 3; k++) g_spec[t].kind[k] = p.tests[t].kind[k];
+        for (int k = 0; k < 3; k++) { g_spec[t].kind[k] = p.tests[t].kind[k]; g_spec[t].later[k] = p.tests[t].varies ? p.tests[t].later[k] : p.tests[t].kind[k]; }
+        g_exec[t] = 0;
         const char* name = p.tests[t].filtered ? "skipme" : "t";
         if (p.tests[t].ignored) { IgnoredScriptShell* s = new (g_shell_mem[t]) IgnoredScriptShell(); s->init(t, name); g_shell_ptr[t] = s; }
         else { ScriptShell* s = new (g_shell_mem[t]) ScriptShell(); s->init(t, name); g_shell_ptr[t] = s; }
@@ -225,7 +228,10 @@ void check_failures_printed(const Ref& ref, const std::string& out, int repetiti
 
 void run_program(const Program& p, int repeat, bool via_runner) {
     std::string desc = render(p) + vf::fmt("x%d", repeat);
-    Ref ref = reference(p);
+    Ref ref = reference(p);                       // first repetition
+    Ref refs[4]; for (int r = 0; r < repeat && r < 4; r++) refs[r] = reference(p, r);
+    Ref all; for (int r = 0; r < repeat; r++) { all.failures += refs[r].failures; for (size_t i = 0; i < refs[r].fail_lines.size(); i++) { all.fail_lines.push_back(refs[r].fail_lines[i]); all.fail_files.push_back(refs[r].fail_files[i]); } }
+    bool any_rep_fails = false; for (int r = 0; r < repeat; r++) any_rep_fails |= refs[r].failure();
     g_depth_errors = g_current_errors = 0; g_ntrace = 0;
     vf::ctx(via_runner ? "runner" : "registry");
     int depth0 = cpputest_verif_jmp_buf_depth();
@@ -241,13 +247,13 @@ void run_program(const Program& p, int repeat, bool via_runner) {
             marks[r] = g_ntrace; sum_from[r] = strlen(out.getOutput().asCharString());
             TestResult result(out);
             reg.runAllTests(result);
-            if (result.getFailureCount() != ref.failures) vf::fail("result/failure-count", desc + vf::fmt(": TestResult counts %zu failures, reference %zu", result.getFailureCount(), ref.failures));
-            if (result.isFailure() != ref.failure()) vf::fail("result/isFailure", desc + vf::fmt(": isFailure()=%d, reference %d", result.isFailure(), ref.failure()));
+            if (result.getFailureCount() != refs[r].failures) vf::fail("result/failure-count", desc + vf::fmt(": TestResult counts %zu failures, reference %zu", result.getFailureCount(), refs[r].failures));
+            if (result.isFailure() != refs[r].failure()) vf::fail("result/isFailure", desc + vf::fmt(": isFailure()=%d, reference %d", result.isFailure(), refs[r].failure()));
         }
         marks[repeat] = g_ntrace;
         outs = out.getOutput().asCharString();
-        for (int r = 0; r < repeat; r++) compare_one_repetition(p, ref, outs, sum_from[r], "registry", desc, marks[r], marks[r + 1]);
-        check_failures_printed(ref, outs, repeat, "registry", desc);
+        for (int r = 0; r < repeat; r++) compare_one_repetition(p, refs[r], outs, sum_from[r], "registry", desc, marks[r], marks[r + 1]);
+        check_failures_printed(all, outs, 1, "registry", desc);
         reg.setNameFilters(nullptr);
         destroy_shells(p);
     } else {
@@ -259,18 +265,20 @@ void run_program(const Program& p, int repeat, bool via_runner) {
         int rv;
         { CommandLineTestRunner runner((int)av.size(), av.data(), &reg); rv = runner.runAllTestsMain(); }
         UtestShell::setRethrowExceptions(false);
-        bool want_zero = !ref.failure();
-        if ((rv == 0) != want_zero) vf::fail(rv == 0 ? "runner/returns-zero-despite-failure" : "runner/returns-nonzero-without-failure", desc + vf::fmt(": runner returned %d, reference failure=%d", rv, ref.failure()));
-        // repetitions: split trace evenly (every repetition runs the same program)
-        size_t per = ref.trace.size(); size_t from = 0;
-        if ((size_t)g_ntrace != per * repeat) vf::fail("trace/repetition-length", desc + vf::fmt(" via runner: %d statements over %d repetitions, reference %zu each", g_ntrace, repeat, per));
+        bool want_zero = !any_rep_fails;
+        if ((rv == 0) != want_zero) vf::fail(rv == 0 ? "runner/returns-zero-despite-failure" : "runner/returns-nonzero-without-failure", desc + vf::fmt(": runner returned %d, reference: some repetition fails=%d", rv, any_rep_fails));
+        // repetitions: the trace is the concatenation of the repetitions' reference traces
+        size_t total = 0; for (int r = 0; r < repeat; r++) total += refs[r].trace.size();
+        size_t from = 0, tfrom = 0;
+        if ((size_t)g_ntrace != total) vf::fail("trace/repetition-length", desc + vf::fmt(" via runner: %d statements over %d repetitions, reference %zu", g_ntrace, repeat, total));
         else for (int r = 0; r < repeat; r++) {
             size_t s = g_console.find("\nOK (", from), e = g_console.find("\nErrors (", from);
             size_t at = std::min(s, e);
-            compare_one_repetition(p, ref, g_console, from, "runner", desc, (int)(per * r), (int)(per * (r + 1)));
+            compare_one_repetition(p, refs[r], g_console, from, "runner", desc, (int)tfrom, (int)(tfrom + refs[r].trace.size()));
+            tfrom += refs[r].trace.size();
             from = at == std::string::npos ? g_console.size() : at + 5;
         }
-        check_failures_printed(ref, g_console, repeat, "runner", desc);
+        check_failures_printed(all, g_console, 1, "runner", desc);
         destroy_shells(p);
     }
     if (g_depth_errors) vf::fail("jmpbuf/depth-drift-across-test", desc + vf::fmt(": jump buffer depth changed by %d across a test (%d tests affected)", g_depth_first_bad, g_depth_errors));
@@ -344,6 +352,23 @@ int main(int argc, char** argv) {
             run_program(p, rep, runner);
         });
         vf::require_outcomes("mixed", 6);
+    }
+    {
+        // tests that behave differently when repeated: kind A at the first execution, kind B from the second on
+        std::vector<long> few; for (long k = 0; k < K3; k++) { int kk[3]; kind_from(k, kk); if ((kk[0] != 0) + (kk[1] != 0) + (kk[2] != 0) <= 1) few.push_back(k); }
+        long F = (long)few.size();
+        vf::info("varying.bound", vf::fmt("1 test: all %ld x %ld (first kind, later kind) over kinds with <= 1 failing phase x repeat {2,3} x {registry, runner}; 2 tests: all (%ld x %ld)^2 through the runner with -r2", F, F, F, F));
+        vf::section_index("varying1", F * F * 2 * 2, [&](long idx) {
+            vf::Radix r(idx); TestSpec t{}; kind_from(few[r.take(F)], t.kind); kind_from(few[r.take(F)], t.later); t.varies = true;
+            int rep = 2 + (int)r.take(2); bool runner = r.take(2);
+            Program p; p.tests.push_back(t); run_program(p, rep, runner);
+        });
+        vf::require_outcomes("varying1", 4);
+        vf::section_index("varying2", F * F * F * F, [&](long idx) {
+            vf::Radix r(idx); Program p;
+            for (int i = 0; i < 2; i++) { TestSpec t{}; kind_from(few[r.take(F)], t.kind); kind_from(few[r.take(F)], t.later); t.varies = true; p.tests.push_back(t); }
+            run_program(p, 2, true);
+        });
     }
     if (T) {
         // triples with at most 4 failing phases in total
